@@ -2569,6 +2569,39 @@ def rule_join_meet(run: Run, prog: Program) -> int:
             run.add("E19.join", fn.short, label, VIOLATION, "; ".join(dict.fromkeys(problems)), fn.loc)
         else:
             run.add("E19.join", fn.short, label, PROVEN, "incident with every argument, not identically zero, independent of the order of the arguments up to a scalar", fn.loc)
+    # a line of 3-space (the join of two points, a contravariant 2-tensor) cut with a plane
+    n_ob += 1
+    label = "meet of the line join(p, q) with a plane of 3-space"
+    try:
+        p_, q_ = obj("p", 4, True), obj("q", 4, True)
+        plane = obj("e", 4, False)
+        line = call([p_, q_])
+        if line.tensor_shape != (0, 2):
+            raise Unknown(f"join of two points of 3-space has index types {line.tensor_shape}")
+        line.kinds = {"SubspaceTensor", "Subspace", "Tensor", "ProjectiveTensor", "LineTensor", "Line"}
+        problems = []
+        for first, second in ((line, plane), (plane, line)):
+            x = call([first, second])
+            if x.array.shape != (4,) or x.tensor_shape != (1, 0):
+                problems.append(f"the result has index types {x.tensor_shape}")
+                continue
+            if all(v.is_zero() for v in x.array.data.values()):
+                problems.append("the result vanishes identically")
+            if not dot(x, plane).is_zero():
+                problems.append("the point does not lie in the plane")
+            rows = [x, p_, q_]
+            m3 = Table((3, 4), {(i, j): rows[i].array.data[(j,)] for i in range(3) for j in range(4)})
+            for cols in itertools.combinations(range(4), 3):
+                minor = Table((3, 3), {(i, j): m3.data[(i, c)] for i in range(3) for j, c in enumerate(cols)})
+                if not _det_table(minor).is_zero():
+                    problems.append("the point is not on the line through p and q")
+                    break
+        if problems:
+            run.add("E19.join", fn.short, label, VIOLATION, "; ".join(dict.fromkeys(problems)), fn.loc)
+        else:
+            run.add("E19.join", fn.short, label, PROVEN, "in both argument orders the point lies in the plane and on the line through p and q, and is not identically zero", fn.loc)
+    except (Unknown, NotPolynomial, RecursionError) as ex:
+        run.add("E19.join", fn.short, label, UNDECIDED, f"not read: {str(ex)[:110]}", fn.loc)
     # round trips in the plane
     for label, point in (("meet(join(p, q), join(p, r)) is p", True), ("join(meet(l, m), meet(l, n)) is l", False)):
         n_ob += 1
